@@ -18,6 +18,7 @@ INVARIANT NeverUnverified
 INVARIANT OfflineWhenCached
 INVARIANT ServedWhenCached
 INVARIANT RetryBound
+INVARIANT ErrorClassOK
 INVARIANT NoCrossTalk
 INVARIANT ProbeDone
 INVARIANT EmitHist
